@@ -239,6 +239,20 @@ impl Property for RefProp {
         if case["kind"].as_str() == Some("coverage") {
             return check_coverage(case, stats);
         }
+        if case["kind"].as_str() == Some("scope") {
+            // a construct that binds `v` locally, between a declaration of `v` and a use of it: the
+            // program means what it means without the construct
+            let (with, without) = (case["with"].as_str().unwrap_or(""), case["without"].as_str().unwrap_or(""));
+            stats.evals(2);
+            stats.nontrivial(with);
+            let (a, _) = observe(with);
+            let (b, _) = observe(without);
+            return if a == b {
+                Verdict::Pass
+            } else {
+                fail("C06:binder-scope", format!("`{with}`\n  gives {a}\n  without the construct that binds `v` locally, `{without}`\n  gives {b}"))
+            };
+        }
         if case["kind"].as_str() == Some("probe") {
             // a fixed program with its documented outcome and a signature of its own
             let text = case["text"].as_str().unwrap_or("");
@@ -338,6 +352,50 @@ impl Property for RefProp {
         stats.sample(6, || json!({"literal": plain, "outcome": p_shown}));
         Verdict::Pass
     }
+}
+
+/// C06: every construct that binds a name locally (match arm, if-set, while-set, for, block, function
+/// parameter, module, closure, destructuring inside a block) between a declaration of the same name
+/// and a later use of it, in function bodies, at the top level and in modules
+fn scope_cases() -> Vec<Json> {
+    let binders = [
+        "n := match v { v: int => 1, => 0, }",
+        "match 5 { v: int => { v }, }",
+        "if v: int = 5 { v + 1 }",
+        "n := if v: int = 5 { v } else { 0 }",
+        "if v: string = 5 { 1 } else { 2 }",
+        "k := mut 0; while v: int = src(k) { k += 1; }",
+        "for v in [1, 2]~ { v + 1 }",
+        "for v in [1, 2]~ { for v in [true]~ { v } }",
+        "{ v := 5; v + 1 }",
+        "n := { v := 5; v }",
+        "if true { v := 5; }",
+        "loop { v := 5; break; }",
+        "g := (v: int) -> int { return v + 1; }; g(1)",
+        "m := mod { v := 5; }",
+        "(() { v := 5; })()",
+        "[1]~ @ (v: int) -> int { return v; } $]",
+        "{ (v, w) := (5, 6); }",
+        "[1, 2]~ $ 0 (v: int, w: int) -> int { return v + w; }",
+        "it := [1, 2]~ ? (v: int) -> bool { return v > 1; }; it $]",
+    ];
+    let src = "src := (k: mut int) -> int|string { if *k < 2 { return *k; } return \"end\"; }; h := () -> string { return \"text\"; }; ";
+    let mut out = vec![];
+    for b in binders {
+        for (decl, wrap_open, wrap_close, last) in [
+            ("", "f := (v: string) -> any { ", "return v; }; f(\"text\")", ""),
+            ("v := h(); ", "", "", "v"),
+            ("v := \"text\"; ", "", "", "v"),
+            ("", "m0 := mod { v := h(); ", "r := v; }; m0.r", ""),
+            ("v := h(); ", "f := () -> any { ", "return v; }; f()", ""),
+            ("", "f := () -> any { v := h(); g0 := () -> any { return v; }; ", "return g0(); }; f()", ""),
+        ] {
+            let with = format!("{src}{decl}{wrap_open}{b}; {wrap_close}{last}");
+            let without = format!("{src}{decl}{wrap_open}{wrap_close}{last}");
+            out.push(json!({"kind": "scope", "with": with, "without": without}));
+        }
+    }
+    out
 }
 
 /// C12, "an accepted match always has such an arm": matches without a default arm over a compound
@@ -440,6 +498,27 @@ pub fn run(session: &Session, prop: &'static RefProp, rule: &str) -> i32 {
     }
     if prop.id == "C13" && !session.stopped() {
         crate::props::soundness::run_cells(session);
+    }
+    if prop.id == "C13" && !session.stopped() {
+        // `c op= v` is computed from the content at the moment of the update: updates that race on one
+        // cell must not lose each other (the orbit / bit / append workloads of C16, a few repetitions)
+        let reps = session.tier.of(3, 20);
+        for case in [
+            json!({"kind": "orbit", "op": "+=", "x0": 0, "k": 1, "threads": 8, "iters": 3000, "reps": reps}),
+            json!({"kind": "orbit", "op": "*=", "x0": 1, "k": 3, "threads": 8, "iters": 1500, "reps": reps}),
+            json!({"kind": "orbit", "op": "^=", "x0": 0, "k": 0x55, "threads": 8, "iters": 1500, "reps": reps}),
+            json!({"kind": "bits", "op": "|=", "threads": 8, "iters": 7, "reps": reps * 20}),
+            json!({"kind": "append", "cell": "array", "threads": 8, "iters": 800, "reps": reps}),
+        ] {
+            if !session.stopped() {
+                session.run_one(&crate::props::c16::C16, &case);
+            }
+        }
+    }
+    if prop.id == "C06" && !session.stopped() {
+        let cases = scope_cases();
+        session.set_extra("binder_scope_cases", json!(cases.len()));
+        session.run_enum(prop, cases);
     }
     if prop.id == "C12" && !session.stopped() {
         let cases = coverage_cases();
